@@ -197,7 +197,6 @@ theorem arrive_forwarded {env : Env} {s : State} {r : Request} {f : Forwarded} (
     · rename_i d hnp
       split at h
       · cases h
-      · cases h
       · split at h <;> cases h
       · rename_i hserve
         split at h
@@ -233,7 +232,6 @@ theorem arrive_terminated {env : Env} {s : State} {r : Request} {a : Model.Forwa
     · rename_i d hnp
       split at h
       · cases h
-      · cases h
       · rename_i a' hserve
         split at h
         · rename_i x hx
@@ -268,7 +266,6 @@ theorem arrive_state (env : Env) (s : State) (r : Request) :
   · split
     · exact Or.inl rfl
     · split
-      · exact Or.inl rfl
       · exact Or.inl rfl
       · split
         · rename_i x hx
@@ -945,7 +942,6 @@ theorem arrive_state_cases (env : Env) (s : State) (r : Request) :
   · split
     · exact Or.inl ⟨rfl, fun f h => by cases h⟩
     · split
-      · exact Or.inl ⟨rfl, fun f h => by cases h⟩
       · exact Or.inl ⟨rfl, fun f h => by cases h⟩
       · split
         · rename_i x hx
